@@ -420,19 +420,21 @@ theorem interpLoop_spec (step : S → U → S) (valid : S → Bool) :
           (rs, sl'.map (·.1), sl'.map (·.2.1)) ∧
         rs ++ [endState s0 sl] = s0 :: sl'.map (·.2.2) ∧
         ReplayOK step valid s0 sl' ∧ endState s0 sl' = endState s0 sl ∧
-        (∀ x ∈ sl', x.2.1 ≤ 1) ∧ (sl'.map (·.2.1)).sum = (sl.map (·.2.1)).sum := by
+        (∀ x ∈ sl', x.2.1 ≤ 1) ∧ (sl'.map (·.2.1)).sum = (sl.map (·.2.1)).sum ∧
+        (∀ x ∈ sl', x.1 ∈ sl.map (·.1)) ∧
+        sl'.length = (sl.map (fun x => max 1 x.2.1)).sum := by
   intro sl
   induction sl with
   | nil =>
     intro s0 _
-    exact ⟨[], [], by simp [interpLoop], rfl, trivial, rfl, by simp, rfl⟩
+    exact ⟨[], [], by simp [interpLoop], rfl, trivial, rfl, by simp, rfl, by simp, rfl⟩
   | cons x tl ih =>
     intro s0 h
     obtain ⟨u, k, s'⟩ := x
     obtain ⟨hs', hval, htl⟩ := h
-    obtain ⟨sl', rs, e1, e2, e3, e4, e5, e6⟩ := ih s' htl
+    obtain ⟨sl', rs, e1, e2, e3, e4, e5, e6, e7, e8⟩ := ih s' htl
     by_cases hk : k ≤ 1
-    · refine ⟨(u, k, s') :: sl', s0 :: rs, ?_, ?_, ⟨hs', hval, e3⟩, ?_, ?_, ?_⟩
+    · refine ⟨(u, k, s') :: sl', s0 :: rs, ?_, ?_, ⟨hs', hval, e3⟩, ?_, ?_, ?_, ?_, ?_⟩
       · simp only [List.map_cons, interpLoop, e1, if_pos hk]
       · simp only [List.cons_append, endState, e2, List.map_cons]
       · simp only [endState, e4]
@@ -441,9 +443,14 @@ theorem interpLoop_spec (step : S → U → S) (valid : S → Bool) :
         · subst hx; exact hk
         · exact e5 x hx
       · simp only [List.map_cons, List.sum_cons, e6]
+      · intro x hx
+        rcases List.mem_cons.mp hx with hx | hx
+        · subst hx; exact List.mem_cons_self ..
+        · exact List.mem_cons_of_mem _ (e7 x hx)
+      · simp only [List.length_cons, List.map_cons, List.sum_cons, e8]; omega
     · obtain ⟨k', rfl⟩ : ∃ k', k = k' + 1 := ⟨k - 1, by omega⟩
       refine ⟨(List.range' 0 (k' + 1)).map (fun i => (u, 1, propagate step s0 u (i + 1))) ++ sl',
-        s0 :: ((List.range k').map (fun i => propagate step s0 u (i + 1)) ++ rs), ?_, ?_, ?_, ?_, ?_, ?_⟩
+        s0 :: ((List.range k').map (fun i => propagate step s0 u (i + 1)) ++ rs), ?_, ?_, ?_, ?_, ?_, ?_, ?_, ?_⟩
       · have hA : (someStates (propagateVec step s0 u (k' + 1) [] true)).dropLast =
             (List.range k').map (fun i => propagate step s0 u (i + 1)) := by
           rw [propagateVec_alloc, someStates_map_some, List.range_succ, List.map_append]
@@ -478,14 +485,24 @@ theorem interpLoop_spec (step : S → U → S) (valid : S → Bool) :
         · exact e5 x hx
       · simp only [List.map_append, List.map_map, Function.comp_def, List.sum_append, e6,
           List.map_cons, List.sum_cons, map_const_range', sum_replicate_one]
+      · intro x hx
+        rcases List.mem_append.mp hx with hx | hx
+        · obtain ⟨i, _, rfl⟩ := List.mem_map.mp hx
+          exact List.mem_cons_self ..
+        · exact List.mem_cons_of_mem _ (e7 x hx)
+      · simp only [List.length_append, List.length_map, List.length_range', List.map_cons,
+          List.sum_cons, e8]
+        omega
 
 theorem interpolate_ofSegs (step : S → U → S) (valid : S → Bool) (s0 : S) (sl : List (U × Nat × S))
     (h : ReplayOK step valid s0 sl) :
     ∃ sl', (ofSegs s0 sl).interpolate step = ofSegs s0 sl' ∧ ReplayOK step valid s0 sl' ∧
       endState s0 sl' = endState s0 sl ∧ (∀ x ∈ sl', x.2.1 ≤ 1) ∧
-      (sl'.map (·.2.1)).sum = (sl.map (·.2.1)).sum := by
-  obtain ⟨sl', rs, e1, e2, e3, e4, e5, e6⟩ := interpLoop_spec step valid sl s0 h
-  refine ⟨sl', ?_, e3, e4, e5, e6⟩
+      (sl'.map (·.2.1)).sum = (sl.map (·.2.1)).sum ∧
+      (∀ x ∈ sl', x.1 ∈ sl.map (·.1)) ∧
+      sl'.length = (sl.map (fun x => max 1 x.2.1)).sum := by
+  obtain ⟨sl', rs, e1, e2, e3, e4, e5, e6, e7, e8⟩ := interpLoop_spec step valid sl s0 h
+  refine ⟨sl', ?_, e3, e4, e5, e6, e7, e8⟩
   have hlen : ¬ ((ofSegs s0 sl).states.length ≤ (ofSegs s0 sl).controls.length) := by
     simp [ofSegs]
   unfold Path.interpolate
@@ -624,5 +641,37 @@ theorem replayFirstBad_some_bound (step : S → U → S) (valid : S → Bool) (c
       simp only [List.length_cons]; omega
     · cases Option.some.inj h
       simp only [List.length_cons]; omega
+
+/-- on a replayable path whose segments have at most one step, consecutive states are one
+propagation step apart (under the segment's control) or equal -/
+theorem adjacent_ofSegs (step : S → U → S) (valid : S → Bool) :
+    ∀ (sl : List (U × Nat × S)) (s0 : S), ReplayOK step valid s0 sl → (∀ x ∈ sl, x.2.1 ≤ 1) →
+      ∀ (i : Nat) (a b : S), (s0 :: sl.map (·.2.2))[i]? = some a →
+        (s0 :: sl.map (·.2.2))[i + 1]? = some b → (∃ x ∈ sl, b = step a x.1) ∨ b = a := by
+  intro sl
+  induction sl with
+  | nil => intro s0 _ _ i a b _ hb; simp at hb
+  | cons x tl ih =>
+    intro s0 h hk i a b ha hb
+    obtain ⟨u, k, s'⟩ := x
+    obtain ⟨hs', _, htl⟩ := h
+    cases i with
+    | zero =>
+      have ha' : a = s0 := by simpa using ha.symm
+      have hb' : b = s' := by simpa using hb.symm
+      have hk1 : k ≤ 1 := hk (u, k, s') (List.mem_cons_self ..)
+      rw [ha', hb', ← hs']
+      cases k with
+      | zero => exact Or.inr rfl
+      | succ k =>
+        have : k = 0 := by omega
+        subst this
+        exact Or.inl ⟨_, List.mem_cons_self .., rfl⟩
+    | succ i =>
+      have := ih s' htl (fun x hx => hk x (List.mem_cons_of_mem _ hx)) i a b
+        (by simpa using ha) (by simpa using hb)
+      rcases this with ⟨x, hx, hxb⟩ | h
+      · exact Or.inl ⟨x, List.mem_cons_of_mem _ hx, hxb⟩
+      · exact Or.inr h
 
 end OmplModel.Control
